@@ -3,6 +3,8 @@ package server
 import (
 	"bytes"
 	"errors"
+	"github.com/tidwall/geojson/geometry"
+	"github.com/tidwall/tile38/internal/collection"
 	"sort"
 	"strconv"
 	"strings"
@@ -196,7 +198,7 @@ func (s *Server) cmdSetHook(msg *Message) (
 
 	// remove previous hook from spatial index
 	if prevHook != nil && prevHook.Fence != nil && prevHook.Fence.obj != nil {
-		rect := prevHook.Fence.obj.Rect()
+		rect := hookRect(prevHook)
 		s.hookTree.Delete(
 			[2]float64{rect.Min.X, rect.Min.Y},
 			[2]float64{rect.Max.X, rect.Max.Y},
@@ -210,7 +212,7 @@ func (s *Server) cmdSetHook(msg *Message) (
 	}
 	// add hook to spatial index
 	if hook != nil && hook.Fence != nil && hook.Fence.obj != nil {
-		rect := hook.Fence.obj.Rect()
+		rect := hookRect(hook)
 		s.hookTree.Insert(
 			[2]float64{rect.Min.X, rect.Min.Y},
 			[2]float64{rect.Max.X, rect.Max.Y},
@@ -264,7 +266,7 @@ func (s *Server) cmdDELHOOKop(name string, channel bool) (updated bool) {
 	s.groupDisconnectHook(hook.Name)
 	// remove hook from spatial index
 	if hook.Fence != nil && hook.Fence.obj != nil {
-		rect := hook.Fence.obj.Rect()
+		rect := hookRect(hook)
 		s.hookTree.Delete(
 			[2]float64{rect.Min.X, rect.Min.Y},
 			[2]float64{rect.Max.X, rect.Max.Y},
@@ -731,4 +733,12 @@ func (h *Hook) proc() (ok bool) {
 		}
 	}
 	return true
+}
+
+// hookRect is the rectangle under which a hook is kept in the hook trees. For
+// a circular fence that is the box of the true disc, as for searches: the box
+// of the circle's polygon approximation misses part of it away from the
+// equator and is wrong across the antimeridian and the poles.
+func hookRect(h *Hook) geometry.Rect {
+	return collection.SearchRect(h.Fence.obj)
 }
